@@ -207,7 +207,9 @@ def run(ctx):
     r4.check(restr, scon + "::restriction", "shown table = {k: v for k, v in table.items() if k in matches} (statuses untouched)",
              "the shown table is not the plain restriction of the computed table to the matching targets", st.where)
     # filters semantics
-    from .shared import rule_name_selection
+    from .shared import rule_name_selection, rule_flag_default
+    rule_flag_default(ctx, r4, "gwf.plugins.status:status", "--endpoints", "targets that are not endpoints would be hidden although --endpoints was not given")
+    rule_flag_default(ctx, r2, "gwf.plugins.run:run", "--dry-run", "`gwf run` would only ever preview")
     rule_name_selection(ctx, r4, "the rows of `gwf status PATTERN...` (the name filter may receive the one-shot result of a previous filter)")
     sf = idx.func("gwf.filtering:StatusFilter.predicate")
     r4.check(any(ast.unparse(n.value).replace(" ", "") == "self.status_provider(target)inself.status" for n in walk_no_nested(sf.node) if isinstance(n, ast.Return)),
